@@ -186,7 +186,7 @@ func EnumFileSets(tier string) (sets []FileSet, rule string, snapshotCases int) 
 				sets = append(sets, fs)
 				continue
 			}
-			if set.Name != "snap-trigger" && set.Name != "snap-longlived" && set.Name != "snap-boundary-last" {
+			if set.Name != "snap-trigger" && set.Name != "snap-longlived" && set.Name != "snap-boundary-last" && set.Name != "snap-handshake" {
 				continue
 			}
 			cuts, err := ref.SnapshotCuts(set)
